@@ -475,7 +475,14 @@ def _run_in(spec, tmp, arg, want_line):
                 if not ms:
                     text = texts[rel]
                     m = re.search(r'^include "' + re.escape(pat) + '"', text, re.M)
-                    expected_err = (k, pat, text[:m.start()].count('\n'))
+                    line0 = text[:m.start()].count('\n')
+                    # the directive is the include line, or - when a comment block stands directly above it and is its
+                    # leading comment - starts with that block: both are "the directive's line"
+                    lines_ = text.split('\n')
+                    top = line0
+                    while top > 0 and lines_[top - 1].lstrip(' \t').startswith(';') and not lines_[top - 1][:1] in ' \t':
+                        top -= 1
+                    expected_err = (k, pat, (line0, top))
                     break
                 inc[k].extend(note(x) for x in ms)
             queue.extend(inc[k])
@@ -587,10 +594,11 @@ def _run_in(spec, tmp, arg, want_line):
             fail('C16:visited-twice-or-missed', f'include {pat!r} in {k} matches nothing: expected ValueError, got {outcome}: {exc} [{sp}]')
         else:
             m = re.search(r'\((.*):(\d+)\)$', str(exc))
+            line0, top0 = line0
             res['lineno'] = (int(m.group(2)), line0) if m else None
             if not m or m.group(1) != k or repr(pat) not in str(exc):
                 fail('C16:lineno', f'message {str(exc)!r} does not name include {pat!r} of {k} [{sp}]')
-            elif int(m.group(2)) != line0:
+            elif int(m.group(2)) not in (line0, top0):
                 fail('C16:lineno', f'message {str(exc)!r}: the directive starts on 0-based line {line0} of {k} [{sp}]')
         untouched('C16:raise-touched-files', 'ValueError while reading')
         return res
